@@ -509,17 +509,17 @@ pub trait PolynomialCommitment<F: PrimeField, P: Polynomial<F>>: Sized {
         // Rearrange the information about queries on linear combinations into
         // information about queries on individual polynomials.
         let poly_query_set = lc_query_set_to_poly_query_set(lc_s.values().copied(), eqn_query_set);
-        let sorted_by_poly_and_query_label: BTreeSet<_> = poly_query_set
-            .clone()
-            .into_iter()
-            .map(|(poly_label, v)| ((poly_label.clone(), v.1), v.0))
+        // The prover sends one evaluation per (polynomial, point) pair, in the
+        // order of these keys (several point labels may share one point).
+        let sorted_by_poly_and_point: BTreeSet<_> = poly_query_set
+            .iter()
+            .map(|(poly_label, (_query_label, point))| (poly_label.clone(), point.clone()))
             .collect();
 
         let poly_evals = Evaluations::from_iter(
-            sorted_by_poly_and_query_label
+            sorted_by_poly_and_point
                 .into_iter()
-                .zip(evals.clone().unwrap())
-                .map(|(((poly_label, point), _query_label), eval)| ((poly_label, point), eval)),
+                .zip(evals.clone().unwrap()),
         );
 
         for &(ref lc_label, (_, ref point)) in eqn_query_set {
